@@ -1,6 +1,7 @@
 package rtgen
 
 import (
+	"regexp"
 	"strings"
 
 	"verif/harness/hx"
@@ -140,9 +141,19 @@ func genCons(r *hx.Rand, segs []string) []ConsT {
 				c2.Name = s[1:]
 				cs = append(cs, c2)
 			}
+			if r.Chance(1, 8) { // a Where call that is rejected (pattern does not compile; the caller recovers), before or after the others
+				bad := ConsT{Name: s[1:], Kind: "rejected", Arg: hx.Pick(r, rejectedPatterns)}
+				if r.Chance(2, 3) {
+					cs = append(cs[:len(cs)-1:len(cs)-1], bad, cs[len(cs)-1])
+				} else {
+					cs = append(cs, bad)
+				}
+			}
 			if r.Chance(1, 8) { // two or three Where patterns on one parameter: all of them must hold
 				k := r.Range(2, 3)
-				cs = cs[:len(cs)-1]
+				if cs[len(cs)-1].Kind != "rejected" {
+					cs = cs[:len(cs)-1]
+				}
 				for j := 0; j < k; j++ {
 					cs = append(cs, ConsT{Name: s[1:], Kind: "where", Arg: hx.Pick(r, wherePatterns)})
 				}
@@ -510,6 +521,70 @@ func GenReqWide(r *hx.Rand, script []RegT) ReqT {
 	return q
 }
 
+// patterns Where rejects: "^" + p + "$" does not compile
+var rejectedPatterns = []string{"[0-9", "(", "a**", `\d+(`, "a{2,1}", "[z-a]", "(?P<n"}
+
+func init() {
+	for _, p := range rejectedPatterns {
+		if _, err := regexp.Compile("^" + p + "$"); err == nil {
+			panic("rtgen: pattern " + p + " compiles")
+		}
+	}
+}
+
+var wideLabels = []string{"users", "orders", "items", "files", "posts", "tags", "teams", "repos", "keys", "jobs", "logs", "docs", "apps", "orgs", "a", "b"}
+
+// GenWide: a node with 9–14 static children that are walked segment by segment (a parameter or a
+// wildcard below each), optionally a parameter / wildcard sibling at the wide level, and requests that
+// hit the late children of that node (plus an early one, an unknown one and a method without a route).
+func GenWide(r *hx.Rand) ([]RegT, []ReqT) {
+	prefix := hx.Pick(r, []string{"", "", "/api", "/api/v1", "/:tenant"})
+	labels := append([]string(nil), wideLabels...)
+	for i := len(labels) - 1; i > 0; i-- {
+		j := r.Intn(i + 1)
+		labels[i], labels[j] = labels[j], labels[i]
+	}
+	n := r.Range(9, 14)
+	labels = labels[:n]
+	m := hx.Pick(r, []string{"GET", "GET", "POST"})
+	var script []RegT
+	tails := make([]string, n)
+	for i, l := range labels {
+		tails[i] = hx.Pick(r, []string{"/:id", "/:id", "/:id", "/*", "/:id/x"})
+		g := RegT{Method: m, Path: prefix + "/" + l + tails[i]}
+		if tails[i] != "/*" && r.Chance(1, 5) {
+			g.Cons = []ConsT{{Name: "id", Kind: "int"}}
+		}
+		script = append(script, g)
+	}
+	if r.Chance(1, 2) {
+		script = append(script, RegT{Method: m, Path: prefix + "/:kind/:id"})
+	}
+	if r.Chance(1, 3) {
+		script = append(script, RegT{Method: m, Path: prefix + "/*"})
+	}
+	if r.Chance(1, 3) {
+		script = append(script, RegT{Method: "DELETE", Path: prefix + "/" + labels[n-1] + "/:id"})
+	}
+	inst := func(i int) string {
+		p := strings.ReplaceAll(prefix, ":tenant", hx.Pick(r, []string{"t1", "acme"})) + "/" + labels[i]
+		switch tails[i] {
+		case "/*":
+			return p + "/" + hx.Pick(r, []string{"a/b", "7", "x/y/z"})
+		case "/:id/x":
+			return p + "/" + hx.Pick(r, []string{"7", "42", "abc"}) + "/x"
+		}
+		return p + "/" + hx.Pick(r, []string{"7", "42", "abc", "1"})
+	}
+	var reqs []ReqT
+	for i := 6; i < n; i++ {
+		reqs = append(reqs, ReqT{Method: m, Path: inst(i)})
+	}
+	reqs = append(reqs, ReqT{Method: m, Path: inst(n - 1)}, ReqT{Method: m, Path: inst(n - 2)}, ReqT{Method: m, Path: inst(0)})
+	reqs = append(reqs, ReqT{Method: m, Path: strings.ReplaceAll(prefix, ":tenant", "t1") + "/nothing/7"})
+	reqs = append(reqs, ReqT{Method: "DELETE", Path: inst(n - 1)})
+	return script, reqs
+}
 
 // GenSession produces 2–6 requests meant for one router instance: several of them instantiate the same
 // pattern with different values under methods with and without a route, so that consecutive 404/405
